@@ -145,7 +145,21 @@ pub fn load_modules_with_loader(
     source: Arc<Source>,
     vm: &mut VM,
 ) -> Result<(ModuleImports, ModuleLoader)> {
+    load_modules_with_memo(stmts, entry_file, source, vm, HashMap::new())
+}
+
+/// Like `load_modules_with_loader`, for a program that continues a session on the same VM (a REPL
+/// input): `loaded` are the modules earlier programs of the session loaded; they are known to the
+/// loader, so importing them again binds their exports without running their top level again.
+pub fn load_modules_with_memo(
+    stmts: &[Stmt],
+    entry_file: &Path,
+    source: Arc<Source>,
+    vm: &mut VM,
+    loaded: HashMap<String, crate::modules::loader::ModuleInfo>,
+) -> Result<(ModuleImports, ModuleLoader)> {
     let mut loader = ModuleLoader::new(entry_file, source.clone());
+    loader.loaded_modules = loaded;
     let mut module_aliases = std::collections::HashSet::new();
     let mut known_globals = std::collections::HashSet::new();
     let mut known_native_globals = std::collections::HashSet::new();
